@@ -532,6 +532,9 @@ func (c16) Gen(rng *rand.Rand, tier string, k int) *Case {
 			}
 			if h.Name == "helper.Duplicate" {
 				c.Param[i] = 1 + rng.Intn(5)
+				if rng.Intn(5) == 0 {
+					c.Param[i] = 6 + rng.Intn(20) // a fan-out wider than anything in the library
+				}
 			}
 		}
 		if h.Ok == nil || h.Ok(c.Param, c.Lens) {
